@@ -387,6 +387,9 @@ def inputs_for(draw, prog, classes, interesting=None):
         if cls == "num":
             pool = iv + NUM_POOL if iv and draw(st.integers(0, 3)) else NUM_POOL
             v = draw(st.sampled_from(pool))
+            if draw(st.integers(0, 11)) == 0:
+                # a missing number as data pipelines deliver it (NaN: every ordering test is false, `not x < 5` is true), or an infinity
+                v = draw(st.sampled_from([float("nan"), float("nan"), float("inf"), float("-inf")]))
         elif cls == "str":
             pool = iv + STR_POOL if iv and draw(st.integers(0, 3)) else STR_POOL
             v = draw(st.sampled_from(pool))
